@@ -804,7 +804,10 @@ def r07_10_half_day(ctx: Ctx) -> RuleResult:
         if isinstance(g.node, ast.Lambda) or not g.mod.rel.endswith("_time_pattern_helper.py"):
             continue
         for n in own_nodes(g.node):
-            if isinstance(n, ast.IfExp) and "pm_designator" in unparse(n.body) and "am_designator" in unparse(n.orelse) and isinstance(n.test, ast.Compare):
+            # the choice may be a conditional expression or an if/else statement whose arms append the designators
+            body_txt = unparse(n.body) if isinstance(n, ast.IfExp) else " ".join(unparse(x) for x in n.body) if isinstance(n, ast.If) else ""
+            else_txt = unparse(n.orelse) if isinstance(n, ast.IfExp) else " ".join(unparse(x) for x in n.orelse) if isinstance(n, ast.If) else ""
+            if isinstance(n, (ast.IfExp, ast.If)) and "pm_designator" in body_txt and "am_designator" in else_txt and "pm_designator" not in else_txt and isinstance(n.test, ast.Compare):
                 call = next((c for c in ast.walk(n.test) if isinstance(c, ast.Call) and isinstance(c.func, ast.Name) and "getter" in c.func.id), None)
                 if call is None:
                     continue  # a choice between the designators that does not look at the value (pattern-creation time)
